@@ -124,11 +124,17 @@ claim('C03',
       'are chained over one fully symbolic double: every double is read back with the identical value, bit-identical apart '
       'from the sign of zero, NaN as NaN, and the reader consumes exactly the bytes written. (2) Opcode tables: for every '
       'constant of nl-opcodes.h (read on each run) the reader\'s OpCodeInfo/ExprInfo tables map the code to a kind with the '
-      'same NL opcode and the same name. Both are loop-free after unwinding constant loops: complete proofs by plain CBMC '
+      'same NL opcode and the same name. (3) Text numbers: the real DAVID_GAY_GFMT::g_fmt with dtoa as an arbitrary function '
+      '(1..17 digits without trailing zeros, decimal point position anywhere in the double range, Infinity, NaN): the literal '
+      'written denotes exactly dtoa\'s digits and decimal point position (mantissa digits in order, only zeros around them, '
+      'point position + written exponent = decpt, exponent of 2..3 decimal digits with a sign), zero as 0, [-]Infinity, NaN. All '
+      'are loop-free after unwinding loops bounded by constants (17 digits, 5 padding zeros): complete proofs by plain CBMC '
       'assertions over the real bodies.',
-      'Trusted: CBMC (incl. its va_arg model), extractor, little-endian host, fwrite as a ghost byte buffer. Not decided: '
-      'shortest-round-trip decimal text output (dtoa/g_fmt), header layout, segment order, suffixes, names, whole-model '
-      'text = binary equivalence. The claim is restricted to the two lemmas.',
+      'Trusted: CBMC (incl. its va_arg model), extractor, little-endian host, fwrite as a ghost byte buffer, dtoa_r_dmgay '
+      '(shortest round-trip digit generation: arbitrary-precision code outside the reach of contracts; a native sweep shows it '
+      'is NOT round-trip exact for some doubles next to short decimals, see DESIGN.md 9.5 observations), strtod. Not decided: '
+      'header layout, segment order, suffixes, names, whole-model text = binary equivalence. The claim is restricted to the '
+      'three lemmas.',
       'DESIGN.md 4 C03',
       technique='contract-style assertions over the real extracted bodies, discharged by CBMC 6.11 for all inputs (loop-free: complete); no DFCC because of varargs')
 
